@@ -422,6 +422,51 @@ theorem C13_retry_resumes_after_any_stretch (k fd : Nat) :
 example : Retry.run .succLt Netpoll.Gen.Server.server_OnRead_retryTable 0
     (List.replicate 12 .emfile ++ [.conn 9, .eagain]) = .ended := by decide
 
+/-! ### fault SEQUENCES: out-of-descriptor errors followed by / mixed with any other accept error -/
+
+/-- The back-off goroutine has one way out: for EVERY script of accept results (connections, EAGAIN, EMFILE/ENFILE,
+    any other error such as ECONNABORTED / EINTR / EPROTO, in any order and number) it has returned iff accept
+    answered `(nil, nil)` – the branch that registers the listener again first.  No error makes it give up.
+    (`Tie.Server.retry_exits`: this one return is the only way out of the goroutine of /repo.) -/
+theorem C13_retry_returns_only_after_reregistering (rs : List AccRes) :
+    Retry.run .succLt Netpoll.Gen.Server.server_OnRead_retryTable 0 rs = .ended ↔ AccRes.eagain ∈ rs :=
+  Retry.run_ended_iff rs (by decide)
+
+example : Retry.run .succLt Netpoll.Gen.Server.server_OnRead_retryTable 0
+    [.emfile, .err false, .emfile, .err false, .err false] = .running 5 := by decide
+
+/-- "Accepting resumes once descriptors are available again", whatever errors preceded: after ANY script in which
+    the goroutine did not see EAGAIN yet, the next successful accept is taken by the goroutine (index back to the
+    start of the table) and the next EAGAIN registers the listener again. -/
+theorem C13_retry_resumes_after_any_script (rs : List AccRes) (hno : AccRes.eagain ∉ rs) (fd : Nat) :
+    Retry.run .succLt Netpoll.Gen.Server.server_OnRead_retryTable 0 (rs ++ [.conn fd]) = .running 0 ∧
+    Retry.run .succLt Netpoll.Gen.Server.server_OnRead_retryTable 0 (rs ++ [.conn fd, .eagain]) = .ended ∧
+    Retry.run .succLt Netpoll.Gen.Server.server_OnRead_retryTable 0 (rs ++ [.eagain]) = .ended :=
+  Retry.resumes_after_any_script (by decide) rs hno fd
+
+example : Retry.run .succLt Netpoll.Gen.Server.server_OnRead_retryTable 0
+    ([.emfile, .emfile, .err false, .conn 7, .err false, .emfile] ++ [.conn 9, .eagain]) = .ended := by decide
+
+/-- One exhaustion episode from the poller's point of view (`Retry.episode`: `OnRead` consults `isOutOfFdErr` for
+    its own accept – out-of-descriptor error ⇒ detach + goroutine, any other error ⇒ return with the listener still
+    armed – and the goroutine treats every error alike): for EVERY script of accept results without a
+    "closed"-error, at every point somebody is accepting – the poller with the listener registered, or a goroutine
+    with its index inside the table – and while the goroutine is retrying, the next success is accepted by it and
+    the next EAGAIN registers the listener again. -/
+theorem C13_episode_never_stops_accepting (rs : List AccRes) (hnc : AccRes.err true ∉ rs) :
+    (Retry.episode .succLt Netpoll.Gen.Server.server_OnRead_retryTable .polling rs).accepting
+        Netpoll.Gen.Server.server_OnRead_retryTable.length ∧
+    ∀ i, Retry.episode .succLt Netpoll.Gen.Server.server_OnRead_retryTable .polling rs = .retrying i → ∀ fd,
+      Retry.episode .succLt Netpoll.Gen.Server.server_OnRead_retryTable .polling (rs ++ [.conn fd]) = .retrying 0 ∧
+      Retry.episode .succLt Netpoll.Gen.Server.server_OnRead_retryTable .polling (rs ++ [.eagain]) = .resumed ∧
+      Retry.episode .succLt Netpoll.Gen.Server.server_OnRead_retryTable .polling (rs ++ [.conn fd, .eagain]) = .resumed :=
+  ⟨Retry.episode_accepting (by decide) rs hnc trivial, fun _ h fd => Retry.episode_resumes (by decide) rs hnc h fd⟩
+
+example : Retry.episode .succLt Netpoll.Gen.Server.server_OnRead_retryTable .polling
+    [.err false, .emfile, .emfile, .err false] = .retrying 2 := by decide
+example : Retry.episode .succLt Netpoll.Gen.Server.server_OnRead_retryTable .polling
+    [.err false, .emfile, .emfile, .err false, .conn 5, .eagain] = .resumed := by decide
+
 /-- every delay the goroutine sleeps is an entry of the table (at most one second: the goroutine notices the end
     of the exhaustion within the largest entry) -/
 theorem C13_retry_delay_bounded (rs : List AccRes) :
